@@ -188,6 +188,12 @@ def c18_cases(tier, rng):
                 if acc == 0:
                     c.rcpt(b"t%dlast@x" % t); acc = 1
                 final = b"".join(rng.choice(verdicts) for _ in range(acc))
+                if t + 1 < ntx and rng.random() < 0.25:
+                    # the server refuses DATA itself (no 354): the transaction is over without a Close; the next MAIL starts afresh —
+                    # its recipients, not these, are the ones whose replies are read
+                    c.peer.append(rng.choice([b"452 4.3.1 insufficient system storage\r\n", b"554 5.5.1 no valid recipients\r\n"]))
+                    c.call("lmtpdata" if rng.random() < 0.6 else "data")
+                    continue
                 c.data([b"msg %d\r\n" % t], final, lmtp_cb=rng.random() < 0.6, closes=1)
                 if rng.random() < 0.2:
                     c.reply(OK); c.call("reset"); c.reply(ehlo(exts))
